@@ -20,7 +20,7 @@ from .absint import (AbsVal, AFunc, AList, AObj, ASet, BuiltinType, Ctx, Frame, 
 from .model import AnalysisError, Program, own_nodes
 
 WS = [" ", "~", "\t", "\n", "\r"]
-QUICK_CLASSES = ["\\", "{", "}", ",", " ", "~", "A", "b", "1"]
+QUICK_CLASSES = ["\\", "{", "}", ",", " ", "~", "A", "b", "1", "\u6cfd"]      # the last one: a caseless letter (CJK)
 THOROUGH_CLASSES = QUICK_CLASSES + ["\n", "\t", "-", "É"]
 
 
@@ -123,14 +123,19 @@ def bibtex_is_lower(word: str) -> bool:
 
     def letter(ch):
         return ch.isalpha()       # (BibTeX knows ASCII letters only; the library extends the rule to Unicode letters)
+
+    def cased(ch):
+        # only a letter that has a case can decide it: caseless letters (CJK, Hebrew, Arabic ...) are skipped like digits, as BibTeX
+        # skips every character that is no ASCII letter
+        return ch.isupper() or ch.islower()
     while i < n:
         c = word[i]
         if c == "\\":
-            if i + 1 < n and letter(word[i + 1]):
+            if i + 1 < n and cased(word[i + 1]):
                 return word[i + 1].islower()
             i += 2
             continue
-        if letter(c):
+        if cased(c):
             return c.islower()
         if c == "{":
             level += 1
@@ -148,11 +153,11 @@ def bibtex_is_lower(word: str) -> bool:
                 while i < n and level > 0:
                     ch = word[i]
                     if ch == "\\":
-                        if i + 1 < n and letter(word[i + 1]):
+                        if i + 1 < n and cased(word[i + 1]):
                             return word[i + 1].islower()
                         i += 2
                         continue
-                    if letter(ch):
+                    if cased(ch):
                         return ch.islower()
                     if ch == "}":
                         level -= 1
